@@ -980,6 +980,11 @@ def mutations(nodes):
                     new = dict(spec)
                     new[f] = spec[f] + 1
                     yield ("sweep.variable_domain", "node %d %s range %s" % (i, vn, f), with_spec(new))
+                for f in ("lo", "hi"):     # a bound moved by less than any rounded print would show (another float all the same)
+                    new = dict(spec)
+                    new[f] = float(spec[f]) + 1e-13
+                    if new[f] != float(spec[f]):
+                        yield ("sweep.variable_domain", "node %d %s range %s + 1e-13" % (i, vn, f), with_spec(new))
                 new = dict(spec)
                 new["endpoint"] = not spec.get("endpoint", True)
                 yield ("sweep.variable_domain", "node %d %s range endpoint" % (i, vn), with_spec(new))
